@@ -679,7 +679,13 @@ SVALS = (0.0, 0.5, 1.0, 2.0)
 
 def tasks(tier):
     T = tier == 'thorough'
-    t = [{'f': 'chi2', 'kind': 'm1', 'T': T}]                      # small: shard 0
+    t = [{'f': 'chi2', 'kind': 'm1', 'n': 2, 'first': [], 'T': T}]     # small: shard 0 (determinism probe)
+    t.append({'f': 'chi2', 'kind': 'm1', 'n': 1, 'first': [], 'T': T})
+    for v in (-1, 0, 1, 2):
+        t.append({'f': 'chi2', 'kind': 'm1', 'n': 3, 'first': [v], 'T': T})
+    if T:
+        for v in itertools.product((-1, 0, 1, 2), repeat=2):
+            t.append({'f': 'chi2', 'kind': 'm1', 'n': 4, 'first': list(v), 'T': T})
     for first in itertools.product((-1, 0, 1, 2), repeat=2):
         t.append({'f': 'chi2', 'kind': 'm2n3', 'first': list(first), 'T': T})
     t.append({'f': 'chi2', 'kind': 'm2n2', 'T': T})
@@ -730,12 +736,13 @@ def run_task(task):
     if f == 'chi2':
         kind = task['kind']
         if kind == 'm1':
-            for n in (1, 2, 3) + ((4,) if T else ()):
-                for col in itertools.product((-1, 0, 1, 2), repeat=n):
-                    A = [[v] for v in col]
-                    for s in itertools.product(SVALS, repeat=n):
-                        for b in [[1.0 if i == j else 0.0 for i in range(n)] for j in range(n)] + [INTB[:n]]:
-                            _do(acc, {'f': 'chi2', 'A': A, 's': list(s), 'b': b}, True)
+            n = task['n']
+            first = tuple(task['first'])
+            for rest in itertools.product((-1, 0, 1, 2), repeat=n - len(first)):
+                A = [[v] for v in first + rest]
+                for s in itertools.product(SVALS, repeat=n):
+                    for b in [[1.0 if i == j else 0.0 for i in range(n)] for j in range(n)] + [INTB[:n]]:
+                        _do(acc, {'f': 'chi2', 'A': A, 's': list(s), 'b': b}, True)
         elif kind == '1d':
             for n in (2, 3):
                 for col in itertools.product((-1, 1, 2), repeat=n):
